@@ -170,6 +170,10 @@ class CBloomDriver:
             self.feats.add("alt_api")
         if kind == "add":
             n = op[2]
+            if self.nops % 4 == 1:
+                # a read-only hashes() call for another depth right before the add of the same key
+                ctx.call(self.noexc, o.hashes, k, o.number_hashes + 1 + self.nops % 3)
+                self.feats.add("hashes_other_depth_before_add")
             if alt:
                 hs = self._alt_hashes(k)
                 if self.case.get("alt_mode") == "scratch":
@@ -188,7 +192,8 @@ class CBloomDriver:
                         except Exception:  # noqa  parameters the library refuses for the other size: no second filter in this case
                             self.shadow = None
                         self.shadow_true = Counter()
-                    if self.shadow is not None and self.shadow_true[k] + n < 2 ** 31:
+                    if self.shadow is not None and len(hs) >= self.shadow.number_hashes and self.shadow_true[k] + n < 2 ** 31 and \
+                            (self.case["hash"] != "depthdep" or len(hs) == self.shadow.number_hashes == o.number_hashes):
                         ctx.call(self.noexc, self.shadow.add_alt, hs, n)
                         self.shadow_true[k] += n
                         r = ctx.call(self.noexc, self.shadow.check, k)
